@@ -137,7 +137,7 @@ func lexClasses(sandbox bool, fix string) lex {
 		"", "/p", "p", "*", ".x", "!", "-1", "0", "1", "9223372036854775808", "1KB", "10s",
 		"none", "off", "on", "not", "http://127.0.0.1:1", "unix:/x", "srv://", "{x", "x}", "{path}", "{>X-H}",
 		p("ok.txt"), p("garbage.bin"), p("d"), p("missing"), "ok.txt", "garbage.bin", "d", "missing",
-		p("c.crt"), p("c.key"), p("certs"), p("certs2"), "127.0.0.2:65530-65535", "127.0.0.2:7-9", "127.0.0.2:9-7", "ht.txt", "tpl.html", "404", "301", "127.0.0.1:1", "a b",
+		p("c.crt"), p("c.key"), p("certs"), p("certs2"), "Casketfile", p("Casketfile"), "d/../Casketfile", "127.0.0.2:65530-65535", "127.0.0.2:7-9", "127.0.0.2:9-7", "ht.txt", "tpl.html", "404", "301", "127.0.0.1:1", "a b",
 		// quoted tokens that are non-empty but contain no shell word / look like a
 		// comment / are an unbalanced quote once a directive splits them again
 		" ", "#c", "'", "\t ",
@@ -217,13 +217,15 @@ func mixTok(r *lib.Rng, d *dirVocab) string {
 
 // dedupe keeps the first case of every distinct directive text.
 func dedupe(cs []*Case) []*Case {
-	seen := map[string]bool{}
+	seen := map[string]*Case{}
 	out := cs[:0:0]
 	for _, k := range cs {
 		t := k.Directive()
-		if !seen[t] {
-			seen[t] = true
+		if first := seen[t]; first == nil {
+			seen[t] = k
 			out = append(out, k)
+		} else if k.MustStart {
+			first.MustStart = true
 		}
 	}
 	return out
@@ -300,6 +302,15 @@ func genPhase1(c *lib.Ctx, d *dirVocab, b budget) []*Case {
 			ms := mk([]string{"p", a}, false)
 			ms.MustStart = true
 			must = append(must, ms, mk([]string{"/p", "p", a}, false), mk([]string{"other", a}, false), mk([]string{"p", a}, true))
+		}
+	}
+	// the name of the configuration file itself (it need not exist) as an
+	// argument: only a real start looks at where the Casketfile is
+	for _, a := range d.V {
+		if a == "Casketfile" || strings.HasSuffix(a, "/Casketfile") {
+			ms := mk([]string{a}, false)
+			ms.MustStart = true
+			must = append(must, ms)
 		}
 	}
 	for _, a := range []string{"", "/p", "1"} {
@@ -405,9 +416,32 @@ func genPhase2(c *lib.Ctx, d *dirVocab, heads [][]string, b budget) []*Case {
 	namesPeer := func(h []string) bool {
 		return len(h) > 0 && strings.Contains(h[len(h)-1], "127.0.0.1:1")
 	}
+	// the fixture's certificate and key files, as the vocabulary spells them
+	var crt, key string
+	var pems []string
+	for _, a := range d.V {
+		switch {
+		case strings.HasSuffix(a, "/c.crt") && !strings.Contains(a, "="):
+			crt = a
+			pems = append(pems, a)
+		case strings.HasSuffix(a, "/c.key") && !strings.Contains(a, "="):
+			key = a
+		case strings.HasSuffix(a, "certs/ok.pem") && !strings.Contains(a, "="):
+			pems = append(pems, a)
+		}
+	}
 	for hi, h := range heads {
 		for _, kw := range d.KW {
 			must = append(must, mk(h, []string{kw}))
+			if namesPeer(h) {
+				// sub-directives that load certificates for talking to the peer
+				for _, a := range pems {
+					must = append(must, mk(h, []string{kw, a}))
+				}
+				if crt != "" && key != "" {
+					must = append(must, mk(h, []string{kw, crt, key}))
+				}
+			}
 			for _, a := range d.C {
 				if hi <= 1 || namesPeer(h) {
 					must = append(must, mk(h, []string{kw, a}), mk(h, []string{kw, "", a}), mk(h, []string{kw, a, ""}))
